@@ -46,6 +46,10 @@ type Case struct {
 	// Flood: Unit repeated N times is inserted at byte offset At of Script when the case runs (kept compact: the
 	// remote sends a very long run of comment / empty / short lines, 150..600 KB)
 	Flood *Flood `json:"flood,omitempty"`
+	// Stall: the remote stops reading as soon as the Session starts to report an error to it ("*** ..."): that
+	// write cannot complete. A deadline on the connection ends it (fast-forwarded by the scripted connection),
+	// without one only Close does.
+	Stall bool `json:"stall,omitempty"`
 }
 
 type Flood struct {
@@ -66,6 +70,7 @@ func (c Case) script() []byte {
 }
 
 type obs struct {
+	stalled  bool
 	consumed int
 	err      error
 	alloc    uint64
@@ -78,6 +83,7 @@ func run(c Case) (sig, msg string, o obs) {
 	}
 	script := c.script()
 	conn := stream.NewScripted(script, c.Sched)
+	conn.StallOnEcho = c.Stall
 	var ms0, ms1 runtime.MemStats
 	runtime.ReadMemStats(&ms0)
 	var psig, pmsg string
@@ -86,9 +92,14 @@ func run(c Case) (sig, msg string, o obs) {
 		psig, pmsg = harness.Catch(func() { _, xerr = s.Exchange(conn) })
 	})
 	if hung {
+		if conn.Stalled {
+			harness.Record("hang:error-report-to-stalled-remote", c, fmt.Sprintf("Exchange did not return within 60 s: the remote stopped reading when the Session began to report an error to it (\"*** ...\"), the connection had no write deadline at that moment and was not closed either, so the write never ends (%v)", c.Desc))
+			harness.ExitHung()
+		}
 		harness.Record("hang:exchange-"+kind, c, fmt.Sprintf("Exchange did not return within 60 s after the %d byte script ended (%v)", len(script), c.Desc))
 		harness.ExitHung()
 	}
+	o.stalled = conn.Stalled
 	runtime.ReadMemStats(&ms1)
 	o.consumed, o.err = conn.Consumed(), xerr
 	o.alloc = ms1.TotalAlloc - ms0.TotalAlloc
@@ -417,11 +428,15 @@ func genCase(t *rapid.T) Case {
 			c.Desc = append(c.Desc, fmt.Sprintf("flood:%q x %d", unit, c.Flood.N))
 		}
 	}
+	c.Stall = rapid.IntRange(0, 2).Draw(t, "stall") == 0
 	return c
 }
 
 func account(c Case, o obs) {
 	harness.Eval()
+	if o.stalled {
+		harness.Label("remote-stalled-at-error-report")
+	}
 	for _, d := range c.Desc {
 		if i := strings.IndexAny(d, ":="); i > 0 {
 			d = d[:i]
